@@ -31,7 +31,7 @@ fn atom_names_filled(k: usize, len: usize, salt: usize, fill: &str) -> Vec<Strin
 fn part_a(rep: &Report) {
     let thorough = rep.thorough();
     let ks: Vec<usize> = if thorough { vec![0, 1, 2, 3, 4, 5, 16, 17, 127, 128, 253, 254, 255, 256, 300] } else { vec![0, 1, 2, 3, 4, 254, 255, 256] };
-    let lens = [0usize, 1, 255, 256, 300];
+    let lens = [0usize, 1, 255, 256, 300, 65_535, 65_536, 70_000];
     // shapes 0..3 place ASCII-padded atoms, 4..7 the same placements with atoms padded by 2-byte characters
     let cases: Vec<(usize, usize, usize)> = ks.iter().flat_map(|&k| lens.iter().flat_map(move |&l| (0..8usize).map(move |shape| (k, l, shape)))).collect();
     cases.par_iter().for_each(|&(k, len, shape)| {
@@ -76,6 +76,8 @@ fn part_a(rep: &Report) {
         let too_long = names.iter().any(|n| n.len() > 65535);
         match erltf::encode_with_dist_header_multi(&terms) {
             Err(EncodeError::TooManyAtoms { .. }) if n_atoms > 255 => { rep.add("too_many_atoms_reported", 1); }
+            // an atom text longer than the two-byte length of a cache entry cannot be carried: an error, not a garbled header
+            Err(_) if too_long && k > 0 => { rep.add("over_long_atom_reported", 1); }
             Err(e) => rep.violation("dist-header encoding fails", json!({"k": k, "atom_len": len, "shape": shape, "error": e.to_string()})),
             Ok(bytes) => {
                 if n_atoms > 255 || too_long {
@@ -354,6 +356,6 @@ pub fn run(rep: &Report) -> serde_json::Value {
         "evaluations": rep.get("evaluations"),
         "distinct_outcomes": outcomes,
         "exhaustive": true,
-        "rule": "(a) control/payload pairs with k distinct atoms for k in {0..4,254,255,256,..}, one atom of byte length 0/1/255/256/300 padded with ASCII or with 2-byte characters (more than 255 bytes in at most 255 characters), atoms as plain atoms, identifier node names, map keys and export modules, encoded by the library and read by an independent header reader and by the library; (b) BFS over all histories of <=3(4) messages of a conforming sender model over 3 atoms and 4 cache slots in segments 0,1,7 (new entry, reference to an existing slot, overwrite; 1-2 references per message, header position != slot), state = sender cache contents, every history replayed through one real AtomCache; (c) five long histories in which a sender makes 257..2048 slots live across all 8 segments (1..255 new entries per message), refers to every slot again, overwrites every 7th and refers to all once more",
+        "rule": "(a) control/payload pairs with k distinct atoms for k in {0..4,254,255,256,..}, one atom of byte length 0/1/255/256/300/65535/65536/70000 padded with ASCII or with 2-byte characters (more than 255 bytes in at most 255 characters), atoms as plain atoms, identifier node names, map keys and export modules, encoded by the library and read by an independent header reader and by the library; (b) BFS over all histories of <=3(4) messages of a conforming sender model over 3 atoms and 4 cache slots in segments 0,1,7 (new entry, reference to an existing slot, overwrite; 1-2 references per message, header position != slot), state = sender cache contents, every history replayed through one real AtomCache; (c) five long histories in which a sender makes 257..2048 slots live across all 8 segments (1..255 new entries per message), refers to every slot again, overwrites every 7th and refers to all once more",
     })
 }
